@@ -8,9 +8,12 @@ op:   stress 0|1
       span via=i|p own=s|<peer code> tid=<n> host=<n> key=<n> ds=<n> rate=<n> probe=n|t|f enc=m|p f=<k:v,…|->
       work
       flush u|p
+      srate <n>                       reload of StressRelief.SamplingRate (obs like stress)
+      decide tid=<n> keep=0|1 rate=<n>  the normal sampler's decision enters the decision record
+                                      (only for a trace without record that is not buffered; obs done=0|1)
 ext:  hash <tid> = <n>
 obs:  stress: rule=<rate>,<bound>
-      span  : o=<id> err=0|1 enq=<u|p><obj>@<host>/<key>/<ds>/<probe>,…|- q=<in>,<peer> buf=<spans|-1>,<traces>
+      span  : o=<id> err=0|1 enq=<u|p><obj>@<host>/<key>/<ds>/<probe>/<SampleRate>,…|- q=<in>,<peer> buf=<spans|-1>,<traces>
       work  : o=<id|-> from=i|p|- enq=… q=… buf=…
       flush : n=<events> q=<batch;…|-> reqs=<req;…|-|*>
               batch = <host>/<key>/<ds>|<obj>@<host>/<key>/<ds>/<ev>+…
@@ -38,7 +41,7 @@ def txStr : Tx → String
   | .up => "u" | .peer => "p"
 
 def enqStr (q : Enq) : String :=
-  s!"{txStr q.tx}{q.obj}@{q.key.host}/{q.key.key}/{q.key.ds}/{optB q.probe}"
+  s!"{txStr q.tx}{q.obj}@{q.key.host}/{q.key.key}/{q.key.ds}/{optB q.probe}/{q.rate}"
 
 def listOr (sep : String) (l : List String) : String :=
   if l.isEmpty then "-" else sep.intercalate l
@@ -97,14 +100,13 @@ def extHash (exts : List (List String)) (tid : Nat) : Option Nat :=
 
 structure OSt where
   s : St
-  cfg : Cfg
   http : Bool
 
 def oStep (o : OSt) (op : List String) (exts : List (List String)) : OSt × Option String :=
   match op with
   | ["stress", b] =>
     if b != "0" && b != "1" then (o, some "bad-op") else
-    match step variant o.cfg o.s (.stress (b == "1")) with
+    match step variant o.s (.stress (b == "1")) with
     | (s', .rule r bd) => ({ o with s := s' }, some s!"rule={r},{bd}")
     | _ => (o, some "bad-op")
   | "span" :: args =>
@@ -115,11 +117,11 @@ def oStep (o : OSt) (op : List String) (exts : List (List String)) : OSt × Opti
       match h with
       | none => (o, some "missing-ext-hash")
       | some h =>
-        match step variant o.cfg o.s (.span sp.via sp.owner sp.e h) with
+        match step variant o.s (.span sp.via sp.owner sp.e h) with
         | (s', .span ob enqs) => ({ o with s := s' }, some s!"o={ob} err=0 {tailStr s' sp.e.c.tid enqs}")
         | _ => (o, some "bad-op")
   | ["work"] =>
-    match step variant o.cfg o.s .work with
+    match step variant o.s .work with
     | (s', .work none enqs) => ({ o with s := s' }, some s!"o=- from=- {tailStr s' 0 enqs}")
     | (s', .work (some (ob, via)) enqs) =>
       let from_ := match via with | .incoming => "i" | .peer => "p"
@@ -127,11 +129,26 @@ def oStep (o : OSt) (op : List String) (exts : List (List String)) : OSt × Opti
     | _ => (o, some "bad-op")
   | ["flush", t] =>
     if t != "u" && t != "p" then (o, some "bad-op") else
-    match step variant o.cfg o.s (.flush (if t == "u" then .up else .peer)) with
+    match step variant o.s (.flush (if t == "u" then .up else .peer)) with
     | (s', .flush n q reqs) =>
       let rs := if o.http then listOr ";" (reqs.map reqStr) else "*"
       ({ o with s := s' }, some s!"n={n} q={listOr ";" (q.map batchStr)} reqs={rs}")
     | _ => (o, some "bad-op")
+  | ["srate", n] =>
+    match n.toNat? with
+    | none => (o, some "bad-op")
+    | some n =>
+      match step variant o.s (.reload n) with
+      | (s', .rule r bd) => ({ o with s := s' }, some s!"rule={r},{bd}")
+      | _ => (o, some "bad-op")
+  | "decide" :: args =>
+    match ((kv args "tid").getD "").toNat?, (kv args "keep"), ((kv args "rate").getD "").toNat? with
+    | some tid, some k, some rate =>
+      if k != "0" && k != "1" then (o, some "bad-op") else
+      match step variant o.s (.decide tid (k == "1") rate) with
+      | (s', .decided d) => ({ o with s := s' }, some s!"done={if d then 1 else 0}")
+      | _ => (o, some "bad-op")
+    | _, _, _ => (o, some "bad-op")
   | _ => (o, some "bad-op")
 
 -- ---------------------------------------------------------------- monitor (implementation's observations only)
@@ -158,7 +175,8 @@ structure MSt where
   stressed : Bool := false
   q : String := "0,0"                       -- last reported queue lengths
   traces : String := "0"                    -- last reported number of buffered traces
-  decided : List (Nat × Bool) := []         -- trace id ↦ the stress decision first observed
+  decided : List (Nat × Bool) := []         -- trace id ↦ the decision first observed (stress rule / normal sampler)
+  rates : List (Nat × Nat) := []            -- kept trace id ↦ the rate it was kept at
   pre : List Nat := []                      -- traces seen by the collector before their stress decision
   arrived : List (Nat × SpanOp) := []       -- object id ↦ the arriving event (inputs)
   await : List Nat := []                    -- stress-kept objects queued upstream, not yet dispatched
@@ -174,7 +192,7 @@ def ruleKeep (srate h : Nat) : Bool :=
   let r := if srate == 0 then 1 else srate
   r ≤ 1 || h ≤ 18446744073709551615 / r
 
-/-- `u12@0/1/0/n` -/
+/-- `u12@0/1/0/n/4` -/
 structure MEnq where
   tx : String
   obj : Nat
@@ -182,13 +200,14 @@ structure MEnq where
   key : String
   ds : String
   probe : String
+  rate : String
 
 def parseEnq (s : String) : Option MEnq :=
   match s.splitOn "@" with
   | [a, b] =>
     match a.toList, b.splitOn "/" with
-    | c :: ds, [h, k, d, p] =>
-      (String.ofList ds).toNat?.map fun n => { tx := String.singleton c, obj := n, host := h, key := k, ds := d, probe := p }
+    | c :: ds, [h, k, d, p, r] =>
+      (String.ofList ds).toNat?.map fun n => { tx := String.singleton c, obj := n, host := h, key := k, ds := d, probe := p, rate := r }
     | _, _ => none
   | _ => none
 
@@ -204,6 +223,8 @@ def bufSpans (buf : String) : String :=
   match buf.splitOn "," with
   | [s, _] => s
   | _ => "?"
+
+def effSrate (srate : Nat) : Nat := if srate == 0 then 1 else srate
 
 def contentFails (where_ : String) (o : Nat) (inp : Ev) (w : WEv) : List Fail :=
   (if w.fields != inp.c.fields || w.tid != inp.c.tid then
@@ -241,9 +262,22 @@ def monSpan (m : MSt) (args : List String) (exts : List (List String)) (toks : L
           else [fail "kept-span-changed-before-enqueue" s!"span {o} queued upstream as {e.host}/{e.key}/{e.ds}/{e.probe}"]
       let f4 := if (enqs.filter fun e => e.tx == "u" && e.obj == o).length > 1 then
         [fail "kept-span-queued-twice" s!"span {o} queued upstream more than once"] else []
-      let m2 := if kept then { m1 with decided := dec', await := m1.await ++ [o], keptEver := o :: m1.keptEver }
+      -- the sample rate the span is forwarded with: its own rate (0 counts as 1) times the rate the
+      -- trace was kept at — the remembered one, or for a first decision the rule's rate in force now
+      let own := if sp.e.rate < 1 then 1 else sp.e.rate
+      let remembered := lookup m.rates sp.e.c.tid
+      let traceRate := remembered.getD (effSrate m.srate)
+      let f5 := if !kept then [] else
+        (enqs.filter fun e => e.tx == "u" && e.obj == o).flatMap fun e =>
+          if e.rate == toString (own * traceRate) then []
+          else if remembered.isSome then
+            [fail "remembered-rate-not-used:stress-path" s!"trace {sp.e.c.tid} was kept at 1-in-{traceRate}; span {o} (client rate {sp.e.rate}) forwarded under stress with SampleRate {e.rate} instead of {own * traceRate} (stress rate now {effSrate m.srate})"]
+          else
+            [fail "stress-rate-not-applied" s!"span {o} (client rate {sp.e.rate}) kept by the rule at 1-in-{traceRate} forwarded with SampleRate {e.rate}"]
+      let rates' := if kept && remembered.isNone then (sp.e.c.tid, traceRate) :: m.rates else m.rates
+      let m2 := if kept then { m1 with decided := dec', rates := rates', await := m1.await ++ [o], keptEver := o :: m1.keptEver }
                 else { m1 with decided := dec' }
-      (m2, f1 ++ f2 ++ f3 ++ f4)
+      (m2, f1 ++ f2 ++ f3 ++ f4 ++ f5)
     else
       -- not stressed: the collector sees the trace through its normal path (unless forwarded)
       let pre := if sp.owner.isNone && (lookup m.decided sp.e.c.tid).isNone && !m.pre.contains sp.e.c.tid
@@ -272,7 +306,14 @@ def monWork (m : MSt) (toks : List String) : MSt × List Fail :=
           (if sentUp == d then [] else
             [fail "decision-not-remembered:late-span" s!"trace {tid} was decided keep={d} under stress; late span {o} sent={sentUp}"]) ++
           (if bufSpans buf == "-1" then [] else
-            [fail "decided-trace-buffered" s!"late span {o} of trace {tid} (decided under stress) was buffered"]))
+            [fail "decided-trace-buffered" s!"late span {o} of trace {tid} (decided under stress) was buffered"]) ++
+          (match lookup m.rates tid with
+           | none => []
+           | some tr =>
+             let own := if sp.e.rate < 1 then 1 else sp.e.rate
+             (enqs.filter fun e => e.tx == "u" && e.obj == o).flatMap fun e =>
+               if e.rate == toString (own * tr) then [] else
+                 [fail "remembered-rate-not-used:late-span" s!"trace {tid} was kept at 1-in-{tr}; late span {o} (client rate {sp.e.rate}) forwarded with SampleRate {e.rate}"]))
 
 structure PendEv where
   obj : Nat
@@ -391,11 +432,18 @@ def mon (m : MSt) (op : List String) (exts : List (List String)) (obs : Option S
   | ["work"], some o => monWork m (o.splitOn " ")
   | ["flush", "u"], some o => monFlushUp m (o.splitOn " ")
   | ["flush", "p"], some o => monFlushPeer m (o.splitOn " ")
+  | ["srate", n], _ => ({ m with srate := n.toNat?.getD m.srate }, [])
+  | "decide" :: args, some "done=1" =>
+    match ((kv args "tid").getD "").toNat?, (kv args "keep"), ((kv args "rate").getD "").toNat? with
+    | some tid, some k, some rate =>
+      ({ m with decided := (tid, k == "1") :: m.decided,
+                rates := if k == "1" then (tid, rate) :: m.rates else m.rates }, [])
+    | _, _, _ => (m, [])
   | _, _ => (m, [])
 
 def comp : Component OSt MSt where
   init := fun args =>
-    { s := init, cfg := { srate := ((kv args "srate").getD "0").toNat?.getD 0 },
+    { s := init { srate := ((kv args "srate").getD "0").toNat?.getD 0 },
       http := (kv args "mode") == some "http" }
   step := oStep
   minit := fun args =>
